@@ -152,6 +152,13 @@ func (mgrScenario) Gen(r *Rng, tier string, opts map[string]string) interface{} 
 		if r.Chance(1, 3) {
 			p.Events = append(p.Events, mgrEvent{AtMs: next(), Kind: "mgr_close"})
 		}
+		if r.Chance(1, 4) {
+			// Close issued at the very instant a rebuild starts (loss + rebuild interval): the fresh session must not survive it
+			p.Events = []mgrEvent{{AtMs: 10, Kind: "close_server_sessions", N: 1 + r.Intn(3)}, {AtMs: 10 + p.RebuildMs, Kind: "mgr_close"}}
+			if r.Chance(1, 2) {
+				p.Events = []mgrEvent{{AtMs: 10, Kind: "kill_server"}, {AtMs: 10 + p.RebuildMs/2, Kind: "start_server"}, {AtMs: 10 + p.RebuildMs, Kind: "mgr_close"}}
+			}
+		}
 	case "C16":
 		if r.Chance(1, 5) {
 			// two complete hand-overs in the life of one manager
@@ -873,6 +880,18 @@ func (w *mgrWorld) settledOracles() {
 		if w.on("C17") {
 			if d := ssys.K.Stats["connect"]; d != w.dialsAtClose {
 				w.fail("C17.dial_after_close", nil, "the session manager dialled %d more time(s) after Close had returned", d-w.dialsAtClose)
+				return
+			}
+			// closing the manager stops all of this: no session of it is left alive in the client process
+			c := ssys.K.CensusOf(w.pc)
+			var socks []string
+			for _, fd := range c.SimFds {
+				if k := ssys.K.FdKind(fd); k != "epoll" {
+					socks = append(socks, fmt.Sprintf("%d:%s", fd, k))
+				}
+			}
+			if len(socks) > 0 || c.Mappings > 0 || len(c.RealFds) > 0 {
+				w.fail("C17.alive_after_close", nil, "%v after SessionManager.Close returned the client process still holds connections %v, %d mapping(s), memfds %v: a (rebuilt) session survived the Close", simrt.Now()-w.lastFaultAt, socks, c.Mappings, c.RealFds)
 			}
 		}
 		return
